@@ -94,15 +94,20 @@ func engRemote(variants []remParams) vsched.Instance {
 		return l
 	}
 	var reqGot any
+	var reqResp *actor.Response
+	reqPending := 0
 	var reqErr error
 	reqDone := false
 	body := func() {
+		reqResp, reqPending = nil, 0
 		p = variants[chooseVariant(len(variants))]
 		vnet.Reset()
 		vsched.BeginSetup()
 		down := p.FailDials >= 3
 		remTLS = p.TLS
-		a = newRemNode(remAddrA, (!down && !p.Restart) || p.NoEvents)
+		// (the request variant keeps A's event stream: a reply that arrives after the requester's timeout is
+		// only visible as a dead letter there)
+		a = newRemNode(remAddrA, ((!down && !p.Restart) || p.NoEvents) && !p.Request)
 		b = newRemNode(remAddrB, true)
 		spawnTargets = func(n *remNode) {
 			prefix := ""
@@ -175,6 +180,7 @@ func engRemote(variants []remParams) vsched.Instance {
 		if p.Request {
 			vsched.Go("requester", func() {
 				resp := a.k.E.Request(actor.NewPID(remAddrB, "t/1"), tm("req1"), 5*time.Second)
+				reqResp = resp
 				reqGot, reqErr = resp.Result()
 				reqDone = true
 			})
@@ -194,6 +200,9 @@ func engRemote(variants []remParams) vsched.Instance {
 			sends = append(sends, remSend{id: id, target: "t1", late: true})
 			a.k.E.Send(actor.NewPID(remAddrB, "t/1"), tm(id))
 			vsched.Quiesce()
+		}
+		if reqResp != nil {
+			reqPending = actor.VerifResponsePending(reqResp)
 		}
 	}
 	check := func(r *vsched.Result) []vsched.Violation {
@@ -337,6 +346,24 @@ func engRemote(variants []remParams) vsched.Instance {
 				vs = append(vs, V("remote/request-never-returned", "%s", p))
 			case down(p):
 				// request during an unreachable episode: timeout is acceptable
+			case reqErr != nil && m == nil:
+				// The requester's timer is a thread like any other: the explorer may let it fire before the round trip
+				// has completed (a slow network). The reply must then still have come back to the requester's node,
+				// where it finds the response PID gone: exactly one dead letter. Neither result nor dead letter: lost.
+				late := 0
+				for _, e := range a.k.Log {
+					if dl, ok := e.Raw.(actor.DeadLetterEvent); ok && e.Kind == "event" {
+						if rm, ok := dl.Message.(*remote.TestMessage); ok && string(rm.Data) == "re:req1" {
+							late++
+						}
+					}
+				}
+				pending := reqPending
+				// ... or it reached the response mailbox at the very moment the timeout was taken (both ready at the
+				// select: either answer is accepted, §5 C11) and sits there unread.
+				if late+pending != 1 {
+					vs = append(vs, V("remote/reply-did-not-reach-requester", "%s: Result() = (%v, %v); the reply came back %d times as a late (dead-lettered) reply and %d times into the response mailbox, want exactly one of the two; events %v", p, reqGot, reqErr, late, pending, a.k.Events()))
+				}
 			case reqErr != nil || m == nil || string(m.Data) != "re:req1":
 				vs = append(vs, V("remote/reply-did-not-reach-requester", "%s: Result() = (%v, %v)", p, reqGot, reqErr))
 			}
